@@ -467,3 +467,186 @@ Proof.
     inversion H; subst; clear H; unfold rep; simpl; auto.
   rewrite nth_error_app_new. repeat split; auto. discriminate.
 Qed.
+
+(* ================================================================== Part 2: updates of one owner *)
+Definition optl (l : lval) : list nat := match data l with Some b => [b] | None => [] end.
+
+Lemma rep_size : forall h l cs, rep h l cs -> size l = length cs.
+Proof.
+  intros h l cs H. unfold rep in H. destruct (data l); [destruct H as (_ & ? & _) | destruct H as (? & ->)]; auto.
+Qed.
+
+Lemma rep_bound : forall h l cs b, rep h l cs -> data l = Some b -> b < length h.
+Proof.
+  intros h l cs b H E. unfold rep in H. rewrite E in H. destruct H as (Hb & _).
+  apply nth_error_Some. congruence.
+Qed.
+
+Lemma rep_fun : forall h l cs cs', rep h l cs -> rep h l cs' -> cs = cs'.
+Proof.
+  intros h l cs cs' H H'. unfold rep in *. destruct (data l).
+  - destruct H as (A & _), H' as (B & _). congruence.
+  - destruct H as (_ & ->), H' as (_ & ->). reflexivity.
+Qed.
+
+Lemma rep_frame : forall h h' l cs, rep h l cs ->
+  (forall b, data l = Some b -> nth_error h' b = nth_error h b) -> rep h' l cs.
+Proof. intros h h' l cs H F. unfold rep in *. destruct (data l) as [b|]; auto. rewrite F; auto. Qed.
+
+Lemma live_blocks_app : forall h c, live_blocks (h ++ [mkblock c true]) = live_blocks h + 1.
+Proof. intros. unfold live_blocks. rewrite filter_app, app_length. reflexivity. Qed.
+
+Lemma live_cells_app : forall h c, live_cells (h ++ [mkblock c true]) = live_cells h + length c.
+Proof. induction h as [|b r IH]; intros; simpl; [lia|]. rewrite IH. lia. Qed.
+
+Lemma live_blocks_upd : forall h b cs lv cs',
+  nth_error h b = Some (mkblock cs lv) ->
+  live_blocks (upd h b (mkblock cs' false)) + (if lv then 1 else 0) = live_blocks h /\
+  live_blocks (upd h b (mkblock cs' true)) + (if lv then 1 else 0) = live_blocks h + 1.
+Proof.
+  unfold live_blocks. induction h as [|x r IH]; intros [|b] cs lv cs' H; simpl in *; try discriminate.
+  - inversion H; subst. simpl. destruct lv; simpl; lia.
+  - destruct (IH b cs lv cs' H) as [A B]. destruct (live x); simpl; lia.
+Qed.
+
+Lemma live_cells_upd : forall h b cs lv cs',
+  nth_error h b = Some (mkblock cs lv) ->
+  live_cells (upd h b (mkblock cs' false)) + (if lv then length cs else 0) = live_cells h /\
+  live_cells (upd h b (mkblock cs' true)) + (if lv then length cs else 0) = live_cells h + length cs'.
+Proof.
+  induction h as [|x r IH]; intros [|b] cs lv cs' H; simpl in *; try discriminate.
+  - inversion H; subst. simpl. destruct lv; simpl; lia.
+  - destruct (IH b cs lv cs' H) as [A B]. lia.
+Qed.
+
+Lemma kill_app : forall h x l cs, rep h l cs -> kill (h ++ [x]) (data l) = kill h (data l) ++ [x].
+Proof.
+  intros h x l cs H. destruct (data l) as [b|] eqn:E; simpl; auto.
+  pose proof (rep_bound h l cs b H E) as Hb.
+  rewrite nth_error_app_old by auto. unfold rep in H. rewrite E in H. destruct H as (Hn & _). rewrite Hn.
+  now apply upd_app_l.
+Qed.
+
+Lemma kill_counts : forall h l cs, rep h l cs ->
+  live_blocks (kill h (data l)) + length (optl l) = live_blocks h /\
+  live_cells (kill h (data l)) + size l = live_cells h.
+Proof.
+  intros h l cs H. pose proof (rep_size h l cs H) as Hs. unfold optl. unfold rep in H.
+  destruct (data l) as [b|]; simpl.
+  - destruct H as (Hn & _ & _). rewrite Hn. simpl.
+    destruct (live_blocks_upd h b cs true cs Hn) as [A _].
+    destruct (live_cells_upd h b cs true cs Hn) as [B _]. simpl in *. lia.
+  - destruct H as (-> & _). lia.
+Qed.
+
+(* what a helper does to the one list it is applied to: the new heap h', the new value l'
+   (contents cs'), every other block untouched, the heap accounting exact *)
+Record upd_ok (h : heap) (l : lval) (h' : heap) (l' : lval) (cs' : list Z) : Prop := {
+  uo_frame : forall b, b < length h -> data l <> Some b -> nth_error h' b = nth_error h b;
+  uo_rep : rep h' l' cs';
+  uo_ptr : data l' = data l \/ data l' = None \/ data l' = Some (length h);
+  uo_len : length h <= length h';
+  uo_blocks : live_blocks h' + length (optl l) = live_blocks h + length (optl l');
+  uo_cells : live_cells h' + size l = live_cells h + size l' }.
+
+Lemma upd_ok_refl : forall h l cs, rep h l cs -> upd_ok h l h l cs.
+Proof. intros. constructor; auto. Qed.
+
+(* free the old buffer, install a fresh block with contents cs' <> [] *)
+Lemma replace_ok : forall h l cs cs', rep h l cs -> cs' <> [] ->
+  upd_ok h l (kill h (data l) ++ [mkblock cs' true]) (mklist (Some (length h)) (length cs')) cs'.
+Proof.
+  intros h l cs cs' H Hne. destruct (kill_counts h l cs H) as [KB KC].
+  constructor; simpl.
+  - intros b Hb Hd. rewrite nth_error_app_old by (rewrite kill_length; auto).
+    apply nth_error_kill_other. auto.
+  - unfold rep. simpl. rewrite <- (kill_length h (data l)). rewrite nth_error_app_new. auto.
+  - auto.
+  - rewrite app_length, kill_length. lia.
+  - rewrite live_blocks_app. unfold optl in *. simpl. lia.
+  - rewrite live_cells_app. lia.
+Qed.
+
+(* free the old buffer, become the null list *)
+Lemma clear_ok : forall h l cs, rep h l cs -> upd_ok h l (kill h (data l)) (mklist None 0) [].
+Proof.
+  intros h l cs H. destruct (kill_counts h l cs H) as [KB KC].
+  constructor; simpl; auto.
+  - intros b Hb Hd. apply nth_error_kill_other. auto.
+  - unfold rep. simpl. auto.
+  - rewrite kill_length. lia.
+  - unfold optl in *. simpl. lia.
+  - lia.
+Qed.
+
+Lemma append_ok : forall h l cs v, rep h l cs ->
+  exists h' l', list_append h l v = Safe (h', l') /\ upd_ok h l h' l' (cs ++ [v]).
+Proof.
+  intros h l cs v H. rewrite (append_spec h l cs v H). rewrite (kill_app h _ l cs H).
+  do 2 eexists. split; [reflexivity|].
+  replace (S (size l)) with (length (cs ++ [v])) by (rewrite app_length, (rep_size h l cs H); simpl; lia).
+  apply (replace_ok h l cs); auto. destruct cs; discriminate.
+Qed.
+
+Lemma remove_ok : forall h l cs v, rep h l cs ->
+  exists h' l', list_remove h l v = Safe (h', l') /\
+    upd_ok h l h' l' (match remove_first v cs with Some cs' => cs' | None => cs end).
+Proof.
+  intros h l cs v H. rewrite (remove_spec h l cs v H).
+  destruct (remove_first v cs) as [[|c r]|].
+  - do 2 eexists. split; [reflexivity|]. apply (clear_ok h l cs H).
+  - rewrite (kill_app h _ l cs H). do 2 eexists. split; [reflexivity|].
+    apply (replace_ok h l cs); auto. discriminate.
+  - do 2 eexists. split; [reflexivity|]. now apply upd_ok_refl.
+Qed.
+
+Lemma set_ok : forall h l cs i v k, rep h l cs -> py_index (length cs) i = Some k ->
+  exists h', list_set h l i v = Safe h' /\ upd_ok h l h' l (upd cs k v).
+Proof.
+  intros h l cs i v k H P. rewrite (set_spec h l cs i v H), P.
+  apply py_index_spec in P. destruct P as (_ & Hk & _).
+  pose proof (rep_size h l cs H) as Hs.
+  pose proof H as H0. unfold rep in H. destruct (data l) as [b|] eqn:E.
+  2:{ destruct H as (_ & ->). simpl in Hk. lia. }
+  destruct H as (Hn & _ & Hne).
+  assert (Hb : b < length h) by (apply nth_error_Some; congruence).
+  eexists. split; [reflexivity|].
+  destruct (live_blocks_upd h b cs true (upd cs k v) Hn) as [_ A].
+  destruct (live_cells_upd h b cs true (upd cs k v) Hn) as [_ B]. rewrite upd_length in B.
+  constructor; auto.
+  - intros b' Hb' Hd. apply nth_error_upd_other. congruence.
+  - unfold rep. rewrite E. rewrite nth_error_upd_same by auto. rewrite upd_length.
+    repeat split; auto. intro Z0. apply (f_equal (@length Z)) in Z0. rewrite upd_length in Z0.
+    destruct cs; simpl in *; congruence.
+  - rewrite upd_length. lia.
+  - simpl in A. lia.
+  - simpl in B. lia.
+Qed.
+
+(* a list value that owns a fresh block (or nothing) *)
+Definition fresh_ok (h h' : heap) (l' : lval) (cs : list Z) : Prop :=
+  (cs = [] /\ h' = h /\ l' = mklist None 0) \/
+  (cs <> [] /\ h' = h ++ [mkblock cs true] /\ l' = mklist (Some (length h)) (length cs)).
+
+Lemma make_ok : forall h items, exists h' l', list_make h items = Safe (h', l') /\ fresh_ok h h' l' items.
+Proof.
+  intros h items. rewrite make_spec. destruct items as [|a r]; do 2 eexists; (split; [reflexivity|]).
+  - left. auto.
+  - right. repeat split; auto. discriminate.
+Qed.
+
+Definition comp_vals (c : comp) : list Z := if (c_step c =? 0)%Z then [] else py_range c.
+
+Lemma comp_ok : forall h c, exists h' l', comp_list h c = Safe (h', l') /\ fresh_ok h h' l' (comp_vals c).
+Proof.
+  intros h c. unfold comp_list. rewrite from_range_spec. cbv zeta. unfold comp_vals, py_range.
+  destruct (if (c_step c =? 0)%Z then [] else _) as [|a r] eqn:E; do 2 eexists; (split; [reflexivity|]).
+  - left. auto.
+  - right. repeat split; auto. discriminate.
+Qed.
+
+Lemma fresh_rep : forall h h' l' cs, fresh_ok h h' l' cs -> rep h' l' cs.
+Proof.
+  intros h h' l' cs [(-> & -> & ->)|(Hne & -> & ->)]; unfold rep; simpl; auto.
+  rewrite nth_error_app_new. auto.
+Qed.
